@@ -67,6 +67,7 @@ package ro
 //@ func (*publishSubjectImpl).SubscribeWithContext$1
 //@   props C03 C10 C09 C06
 //@   binds index
+//@   calls Delete
 //@   track observers.*
 //@   ensures [teardown-unregisters-own-entry|C03,C10,C06] trace(observers.Delete(index))
 
@@ -140,6 +141,7 @@ package ro
 //@ func (*behaviorSubjectImpl).SubscribeWithContext$1
 //@   props C03 C10 C09 C06
 //@   binds index
+//@   calls Delete
 //@   track observers.*
 //@   ensures [teardown-unregisters-own-entry|C03,C10,C06] trace(observers.Delete(index))
 
@@ -213,6 +215,7 @@ package ro
 //@ func (*asyncSubjectImpl).SubscribeWithContext$1
 //@   props C03 C10 C09 C06
 //@   binds index
+//@   calls Delete
 //@   track observers.*
 //@   ensures [teardown-unregisters-own-entry|C03,C10,C06] trace(observers.Delete(index))
 
@@ -291,6 +294,7 @@ package ro
 //@ func (*replaySubjectImpl).SubscribeWithContext$1
 //@   props C03 C10 C09 C06
 //@   binds index
+//@   calls Delete
 //@   track observers.*
 //@   ensures [teardown-unregisters-own-entry|C03,C10,C06] trace(observers.Delete(index))
 
